@@ -152,6 +152,57 @@ INFO.update({
  "R16-a": ("mub_circuits through a private _lookup_mub_table that gates first, info dictionary from a NamedTuple, determine_lc_class via a dispatch table, linear_index helpers renamed", "behaviour-preserving refactoring"),
  "R16-b": ("lc_classes: vectorised count_identity_structures behind a strict guard, lru_cache memos keyed on the qubit count with read-only results", "behaviour-preserving refactoring (correct memo)"),
 })
+# wave 6: three SMALL defects (<= ~5 changed lines, or one table token) per claimed property
+INFO.update({
+ "C02s-a": ("get_connectivity_graph: closing edge of the 'Q' shape written as (n-1, 1) instead of (n-1, n-4)", "(6, 'Q'): the reported coupling graph has edge 1-5 instead of 2-5"),
+ "C02s-b": ("stabilizer5-linear.txt class 56: cx3,4 hand-edited to cx2,4 (state, cost and depth unchanged)", "5 qubits, linear, GHZ-type class: a CX on the uncoupled pair (2,4)"),
+ "C02s-c": ("full_state_tomography_circuits stores and composes with tuple(sorted(measured_qubits))", "a measured_qubits list that is not ascending"),
+ "C03s-a": ("get_readout_circuit loses its trailing .inverse()", "every stabilizer whose preparation circuit is not self-inverse"),
+ "C03s-b": ("sign repair folded into _get_preparation_circuit_modulo_phase: the readout ends in sign-dependent X gates", "two sign vectors of one group give different readout circuits"),
+ "C03s-c": ("get_readout_circuit strips leading (instead of trailing) s/sdg gates through circuit.data", "a readout circuit that starts with s / sdg"),
+ "C04s-a": ("stabilizer6-ladder.txt class 179: two commuting cz tokens swapped, depth column left at 2", "6 qubits, ladder, class 179: delivered depth 4, reported 2"),
+ "C04s-b": ("sign repair's 'nothing to repair' exit returns the reference circuit instead of the tailored one", "the one sign vector per group whose tailored circuit needs no repair"),
+ "C04s-c": ("get_readout_circuit drops the connectivity argument of the inner call (default 'all')", "every readout for a connectivity other than 'all'"),
+ "C05s-a": ("stabilizer5-cycle.txt class 35 replaced by the costlier, still valid row of the linear table", "5 qubits, cycle, class 35: 5 two-qubit gates where 4 suffice"),
+ "C05s-b": ("stabilizer4-star.txt class 1: a stray cx0,3 acting on a |+> target added, cost column unchanged", "4 qubits, star, Bell-pair class: 2 two-qubit gates, metadata says 1"),
+ "C05s-c": ("default of get_preparation_circuit(connectivity=) changed from 'all' to 'linear'", "callers that omit the connectivity"),
+ "C07s-a": ("compress_preparation_circuit drops the connectivity argument of the inner call", "every connectivity other than 'all'"),
+ "C07s-b": ("arguments of the sign-repair call in compress_preparation_circuit swapped", "every call: the caller's circuit is returned, modified in place"),
+ "C07s-c": ("stabilizer5-T.txt class 4: cx3,4 hand-edited to cx0,4", "5 qubits, T, Bell pair on (0,4): CX on an uncoupled pair"),
+ "C08s-a": ("character check of the Pauli-string parser made case-insensitive (pauli.upper()), the parse loop is not", "lower-case x / y / z are accepted and read as identity"),
+ "C08s-b": ("support gate lost from _get_preparation_circuit_modulo_phase", "(6, 'allx'): the stray table is served by the preparation APIs"),
+ "C08s-c": ("default allow_underconstrained of the reference synthesis flipped to True", "dependent generator lists containing +I..I are served"),
+ "C09s-a": ("mub4-linear.txt basis 16: a redundant s1 hand-edited to cz0,1, header untouched", "(4, linear): header total 51, circuits count 52"),
+ "C09s-b": ("MUBInfo header parsing: max_depth read from header field 1 instead of 2", "get_mub_info in the 13 configurations where the two fields differ"),
+ "C09s-c": ("get_mubs reads the 'all' table whatever connectivity is requested", "every connectivity other than 'all': bases and circuits no longer index-aligned"),
+ "C10s-a": ("sign factor written as (-1) ** z_pauli.phase (phase 2 gives +1)", "every Pauli that is pulled back with a minus sign"),
+ "C10s-b": ("mask loop range(1, 2**n - 1): the all-ones Z string is never evaluated", "every state: 2^n+1 Paulis missing from the tomography"),
+ "C10s-c": ("count keys marginalised over sorted(qubits, reverse=True) instead of reversed(qubits)", "a measured_qubits list that is not ascending"),
+ "C11s-a": ("count keys read big-endian: key[index] for index in qubits", "any measured subset that is not mirror symmetric"),
+ "C11s-b": ("re-embedding loop runs over enumerate(sorted(qubits))", "non-ascending measured_qubits in full-register mode"),
+ "C11s-c": ("stabilizer_measurement_circuit loses qubits=measured_qubits in compose", "any measured list other than the prefix 0..m-1"),
+ "C12s-a": ("pauli.phase = 0 moved behind the push-forward: the signed Pauli always pushes forward to +Z", "every element that pulls back with a minus sign"),
+ "C12s-b": ("estimator returns expectation_value // total_count", "non-stabilizer states (non-integer expectation values)"),
+ "C12s-c": ("mask loop range(1, 2**n - 1)", "the element read out as Z on every qubit is never reported"),
+ "C13s-a": ("MUBInfo.copy copies the list of circuits but not the circuits", "a caller edits a returned MUB circuit, later lookups are corrupted"),
+ "C13s-b": ("public rotate_stabilizer_into_state(inplace=) default flipped to True", "a call with default arguments modifies the caller's circuit"),
+ "C13s-c": ("Graph.copy() reduced to Graph(self.adjacency_matrix) (int8 arrays are adopted, not copied)", "local_complemented(v) also rewrites the receiver"),
+ "C14s-a": ("sign parsing folded into one branch: an explicit '+' prefix is stored as minus", "any generator written with a leading '+'"),
+ "C14s-b": ("matrix constructor reads R and S transposed", "non-symmetric X / Z matrices"),
+ "C14s-c": ("Graph.to_circuit returns an empty circuit for an edgeless graph (early exit before the Hadamard layer)", "the edgeless graph"),
+ "C16s-a": ("validity filter 'tidied' from OR/XOR to +/==: weight-3 (singular) blocks pass", "partial sets / stabilizers of another class: a non-Clifford layer is returned"),
+ "C16s-b": ("weight pre-filter bound 2*n replaced by 2*m (operator count)", "fewer operators than qubits: existing layers are skipped"),
+ "C16s-c": ("linearisation loop over qubits runs range(m) instead of range(n)", "fewer operators than qubits: columns of the last qubits stay zero"),
+ "C17s-a": ("stabilizer6-ladder.txt class 307: depth column 4 edited to 3", "6 qubits, ladder, class 307"),
+ "C17s-b": ("StabilizerCircuitInfo recounts the cost from tokens starting with 'c' (swap = 3 skipped)", "the 122 table entries containing a swap"),
+ "C17s-c": ("last line of stabilizer5-T.txt duplicated: 94 entries for 93 classes", "class id 93 returns an entry instead of raising"),
+ "C18s-a": ("rref_and_basis_change loop bound h < m - 1: the last row is never a pivot row", "matrices whose rank equals their row count: result not reduced"),
+ "C18s-b": ("rank returns the trace of the RREF instead of the pivot count", "a free column before a pivot column, e.g. rank([[0,1]]) = 0"),
+ "C18s-c": ("null_space loses its final reshape: trivial kernel returned with shape (0,)", "every full-column-rank matrix"),
+ "C19s-a": ("local_complementation: ^= replaced by |= (edges only added)", "two adjacent neighbours, or a second application"),
+ "C19s-b": ("to_112 uses a hand-written pair list with entries 1 and 2 exchanged", "LCClass4 ids 2 and 3 are exchanged"),
+ "C19s-c": ("Graph.compress skips rows of isolated vertices without advancing the bit index", "an isolated vertex numbered below an edge"),
+})
 XPROP = {"X1-a": "C13", "X1-b": "C07", "X2-a": "C13", "X2-b": "C09", "X3-a": "C11", "X3-b": "C11", "X4-a": "C12", "X4-b": "C13",
          "X5-a": "C08", "X5-b": "C13", "X6-a": "C13", "X6-b": "C13", "X7-a": "C13", "X7-b": "C04", "X8-a": "C19", "X8-b": "C19"}
 
@@ -190,7 +241,7 @@ def main():
                 info = (open(os.path.join(d, "notes.md")).read().strip().split("\n")[0][:200], "see notes.md")
             meta = {
                 "id": sid,
-                "property_targeted": XPROP.get(sid, sid.split("-")[0]),
+                "property_targeted": XPROP.get(sid, sid.split("-")[0].rstrip("s") if sid.split("-")[0].endswith("s") else sid.split("-")[0]),
                 "change": info[0],
                 "needs_to_manifest": info[1],
                 "kind": "behaviour-preserving refactoring (false-alarm corpus: no check may report a violation)" if sid.startswith("R") else
